@@ -157,7 +157,7 @@ func ReadFile(r Reader, out interface{}, cb func(val unsafe.Pointer, rb *Resourc
 		p = unsafe_New(rtyp)
 	}
 
-	var compressed []byte
+	var block bytes.Buffer
 	br := &ReadBuf{}
 	for {
 		count, err := binary.ReadVarint(r)
@@ -174,14 +174,16 @@ func ReadFile(r Reader, out interface{}, cb func(val unsafe.Pointer, rb *Resourc
 		if dataLength < 0 {
 			return fmt.Errorf("negative data block length %d", dataLength)
 		}
-		if cap(compressed) < int(dataLength) {
-			compressed = make([]byte, dataLength)
-		} else {
-			compressed = compressed[:dataLength]
-		}
-		if n, err := io.ReadFull(r, compressed); err != nil {
+		// The length comes from the input: read through a growing buffer
+		// rather than allocating dataLength bytes up front.
+		block.Reset()
+		if n, err := io.CopyN(&block, r, dataLength); err != nil {
+			if errors.Is(err, io.EOF) {
+				err = io.ErrUnexpectedEOF
+			}
 			return fmt.Errorf("reading %d bytes of compressed data: %w after %d bytes", dataLength, err, n)
 		}
+		compressed := block.Bytes()
 		uncompressed, err := decoder.decompress(compressed)
 		if err != nil {
 			return fmt.Errorf("decompress failed: %w", err)
@@ -267,9 +269,14 @@ func readBytes(r Reader) ([]byte, error) {
 	if l < 0 {
 		return nil, fmt.Errorf("negative length %d", l)
 	}
-	v := make([]byte, l)
-	_, err = io.ReadFull(r, v)
-	return v, err
+	var buf bytes.Buffer
+	if _, err := io.CopyN(&buf, r, l); err != nil {
+		if errors.Is(err, io.EOF) {
+			err = io.ErrUnexpectedEOF
+		}
+		return nil, err
+	}
+	return buf.Bytes(), nil
 }
 
 func (fh FileHeader) schema() (schema Schema, err error) {
